@@ -257,7 +257,13 @@ class PathExec:
         if isinstance(node, ast.UnaryOp) and isinstance(node.op, ast.Not):
             return Sym('bool', z3.Not(truth(self.ev(node.operand, st, exc_out))))
         if isinstance(node, ast.BoolOp):
-            vals = [truth(self.ev(v, st, exc_out)) for v in node.values]
+            syms = [self.ev(v, st, exc_out) for v in node.values]
+            if all(x.kind == 'const' for x in syms):
+                r = syms[0].t
+                for x in syms[1:]:
+                    r = (r and x.t) if isinstance(node.op, ast.And) else (r or x.t)
+                return const(r)
+            vals = [truth(x) for x in syms]
             return Sym('bool', z3.And(*vals) if isinstance(node.op, ast.And) else z3.Or(*vals))
         if isinstance(node, ast.Compare):
             left = self.ev(node.left, st, exc_out)
@@ -496,8 +502,15 @@ class PathExec:
 
     def s_AugAssign(self, node, st):
         def go(exc):
-            self.ev(node.value, st, exc)
+            v = self.ev(node.value, st, exc)
             if isinstance(node.target, ast.Name):
+                cur = st.env.get(node.target.id)
+                if cur is not None and cur.kind == 'const' and v.kind == 'const' and isinstance(node.op, ast.Add):
+                    try:
+                        st.env[node.target.id] = const(cur.t + v.t)
+                        return [('next', st, None, None)]
+                    except Exception:
+                        pass
                 st.env[node.target.id] = self.fresh(node.target.id)
             return [('next', st, None, None)]
         return self.with_exc(st, go)
